@@ -756,7 +756,10 @@ def splitProbeLine (line : String) : Option (String × String) :=
   | "pb" :: name :: rest => some (name, " ".intercalate rest)
   | _ => none
 
-/-- Model bytes (hex) of one probe line `pb <name> <fields> => …`; `err:<why>` if the model refuses. -/
+/-- Model bytes (hex) of one probe line `pb <name> <fields> => …`; `err:<why>` if the model refuses.
+A value outside `canonical` (e.g. a time outside years 1…9999, a `Dec` of more than 315 bits) gives
+`err:noncanonical <hex of the bytes the total encoder produces anyway>`: the real codec must then fail
+to marshal or to unmarshal.  For a canonical value the model also checks its own round trip. -/
 def runProtoProbeWith (env : Env) (line : String) : String :=
   match splitProbeLine line with
   | none => "err:line"
@@ -771,12 +774,41 @@ def runProtoProbeWith (env : Env) (line : String) : String :=
          | none => "err:type"
          | some v =>
            if !wf env d then "err:descriptor"
-           else if !canonical env d v then "err:noncanonical"
            else
              let bs := encode env d v
+             if !canonical env d v then "err:noncanonical " ++ hexOf bs else
              match decode env d bs with
              | some v' => if Val.beq v v' then hexOf bs else "err:model-roundtrip " ++ hexOf bs
              | none => "err:model-decode " ++ hexOf bs)
       | _ => "err:parse"
+
+/-- One line of the decode probe, `pbd <name> <hex of arbitrary bytes> => <fields of the struct the real
+Unmarshal produced> | err:<reason>`: "ok" when the model's `decode` of the same bytes agrees with the real
+`Unmarshal` (the same value, or both reject), otherwise `DIFF …`. -/
+def runProtoDecodeProbeWith (env : Env) (line : String) : String :=
+  let line := if line.endsWith "=>" then line ++ " " else line   -- an empty message, right-trimmed
+  match line.splitOn " => " with
+  | [left, right] =>
+    (match left.splitOn " " with
+     | ["pbd", name, hx] =>
+       (match lookup env name, ofHex hx with
+        | some d, some bs =>
+          let model := decode env d bs
+          if right.startsWith "err:" then
+            (match model with
+             | none => "ok"
+             | some _ => "DIFF model=accepts real=" ++ right)
+          else
+            let cs := right.toList
+            (match parseFields (cs.length + 2) cs with
+             | some (pvs, []) =>
+               (match pvToVal env depthFuel d pvs, model with
+                | some v, some v' => if Val.beq v v' then "ok" else "DIFF value"
+                | some _, none => "DIFF model=rejects real=accepts"
+                | none, _ => "err:type")
+             | _ => "err:parse")
+        | _, _ => "err:line")
+     | _ => "err:line")
+  | _ => "err:line"
 
 end Hub.SDK.ProtoWire
